@@ -15,7 +15,7 @@ TRUSTED = ["the abstraction of the harness event log into Model/Events.v events 
 ASSUMPTIONS = ["a reply whose frame exceeds the limit is refused to the handler's reply path (the caller-side consequence is C01's)"]
 
 
-def boundary(rng, k, lim):
+def boundary(rng, k, lim, shape="b"):
     out = []
     for delta in range(-3, 4):
         tgt = lim + delta
@@ -25,10 +25,10 @@ def boundary(rng, k, lim):
             exp = ["1:ok"]
             nw = 1 + 1 + 2          # notify 1, notify 3, call 4 + its cancel frame
             if kind == "call":
-                pad = scn.pad_for_len(2, tgt, "call", seq=0)
+                pad = scn.pad_for_len(2, tgt, "call", seq=0, shape=shape)
                 if pad is None:
                     continue
-                s.append(scn.call(2, pad=pad, nowait=(delta > 0)))
+                s.append(scn.call(2, pad=pad, nowait=(delta > 0), shape=shape))
                 if delta > 0:
                     s.append("await/c2")
                     exp.append("2:toobig")
@@ -38,10 +38,10 @@ def boundary(rng, k, lim):
                     exp.append("2:ctx")
                     nw += 2
             elif kind == "notify":
-                pad = scn.pad_for_len(2, tgt, "notify")
+                pad = scn.pad_for_len(2, tgt, "notify", shape=shape)
                 if pad is None:
                     continue
-                s.append(scn.notify(2, pad=pad))
+                s.append(scn.notify(2, pad=pad, shape=shape))
                 exp.append("2:toobig" if delta > 0 else "2:ok")
                 nw += 0 if delta > 0 else 1
             else:
@@ -49,14 +49,14 @@ def boundary(rng, k, lim):
                 import frames, mp
                 pad = None
                 for p in range(max(0, tgt - 40), tgt + 1):
-                    if len(frames.content([1, 7, None, scn.arg(2, p)], mp.Chooser())) == tgt:
+                    if len(frames.content([1, 7, None, scn.arg(2, p, shape)], mp.Chooser())) == tgt:
                         pad = p
                         break
                 if pad is None:
                     continue
                 s.append(scn.feed_call(7, 2))
                 s.append("waithandlers/1")
-                s.append(scn.finish(0, 2, pad=pad))
+                s.append(scn.finish(0, 2, pad=pad, shape=shape))
                 s.append("settle")
                 nw += 0 if delta > 0 else 1
             s.append(scn.notify(3, pad=1))
@@ -66,7 +66,7 @@ def boundary(rng, k, lim):
             exp.append("4:ctx")
             s.append("waitwrites/%d" % nw)
             s.append("settle")
-            out.append(scn.line("scn", "b%d_%d" % (k, len(out)), s, max_=lim, extra="nt=1 writes=%d expect=%s" % (nw, ",".join(exp))))
+            out.append(scn.line("scn", "b%s%d_%d" % (shape, k, len(out)), s, max_=lim, extra="nt=1 writes=%d expect=%s" % (nw, ",".join(exp))))
     return out
 
 
@@ -99,7 +99,8 @@ def explore(ctx):
         lines = C.load_corpus("C03")
         lims = {"quick": [200], "thorough": [64, 200, 256, 1000, 65536], "search": [128, 200, 300]}[tier]
         for i, lim in enumerate(lims):
-            lines += boundary(rng, i, lim)
+            for shape in ("b", "s", "a"):
+                lines += boundary(rng, i, lim, shape)
         for k in range({"quick": 12, "thorough": 150, "search": 40}[tier]):
             lines.append(big_cancel(rng, k))
         n = {"quick": 250, "thorough": 5000, "search": 1000}[tier]
